@@ -530,6 +530,11 @@ func (cs *clientStream) doHttpCall(transport http.RoundTripper, req *http.Reques
 			}
 			return
 		}
+		if sz > maxMessageSize {
+			// do not allocate on the strength of an unverified size preface
+			rErr = fmt.Errorf("bad size preface: indicated size is too large: %d", sz)
+			return
+		}
 		msg := make([]byte, sz)
 		_, rErr = io.ReadAtLeast(reply.Body, msg, int(sz))
 		if rErr != nil {
